@@ -6,4 +6,6 @@ pub mod verif_access {
     use super::*;
     pub fn stops(ts: &TimeStrategy) -> (Duration, Duration) { (ts.soft_stop, ts.hard_stop) }
     pub fn next_check_at(ts: &TimeStrategy) -> u64 { ts.next_check_at }
+    /// the handle a finished (or running) search leaves behind in `Uci::control`
+    pub fn mk_control() -> Control { Control { force_stop: Arc::new(AtomicBool::new(false)) } }
 }
